@@ -40,6 +40,12 @@ func (l Limit) TryBorrow() bool {
 // Return 归还借用的资源。当多次归还时返回错误。
 // 归还1个，则从池中释放1个。
 func (l Limit) Return() error {
+	if cap(l.pool) == 0 {
+		// 容量为 0 的 Limit 不可能有借出的资源；此时 pool 是无缓冲通道，
+		// 下面的接收会与阻塞在 Borrow 中的发送直接配对，让它“借”到资源。
+		return ErrLimitReturn
+	}
+
 	select {
 	case <-l.pool:
 		return nil
